@@ -15,8 +15,9 @@ CONSTANTS
   Chan,         \* channel ids 1..N
   ChanType,     \* [Chan -> [baudDb, slotDb]]      10 log10 of baud rate / slot width in GHz (udB)
   ChanType2,    \* [Chan -> [baudDb, slotDb]]      other baud rates / slot widths ON THE SAME FREQUENCIES (second crossing)
-  Stages,       \* subset of {"designed", "reloaded"}: the crossing is made on the designed network, or on the network
-                \*   exported (network_to_json / save_network) and loaded again - the configuration is the same
+  Stages,       \* subset of {"designed", "reloaded", "yang"}: the crossing is made on the designed network, or on the network
+                \*   exported (network_to_json / save_network) and loaded again, in the legacy form or converted to the YANG
+                \*   form (RFC 7951 JSON) and loaded through load_network - the configuration is the same
   NodeV,        \* [PolicyKinds -> Int]            value of the node-level policy of each kind
   DegV,         \* [PolicyKinds -> Int]            value written for the egress degree when it has its own setting
   LoadCases,    \* set of [lib, elt]               node-level policy kinds written in library entry / element
@@ -72,7 +73,8 @@ Init == /\ phase = "cfg"
         /\ cfg.degKind = "pch0" => cfg.elt = {}
         /\ cfg.elt # {} => cfg.degKind \in EltDegKinds
         \* export + reload is explored on the plain configurations (library policy, no offsets, one profile, first loss)
-        /\ cfg.stage = "reloaded" => (cfg.elt = {} /\ cfg.prof = "single" /\ (\A k \in Chan : cfg.offset[k] = 0)
+        /\ cfg.stage = "yang" => (cfg.crossing = "express" /\ cfg.degKind \in PolicyKinds)
+        /\ cfg.stage # "designed" => (cfg.elt = {} /\ cfg.prof = "single" /\ (\A k \in Chan : cfg.offset[k] = 0)
                                       /\ cfg.maxloss = CHOOSE m \in MaxLossVecs : TRUE)
         /\ cfg.prof # "single" => (cfg.elt = {} /\ cfg.degKind = "none" /\ \A k \in Chan : cfg.offset[k] = 0)
         /\ ~ConfigAccepted(cfg.lib, cfg.elt) =>
